@@ -182,7 +182,8 @@ class SMCAlgorithm(Generic[R], Algorithm[R]):
         algorithm = ChangeTarget(self, target)
         key, sub_key = jrandom.split(key)
         particle_collection = algorithm.run_csmc(key, v)
-        particle = particle_collection.sample_particle(sub_key)
+        # the density estimate is about `v`: the retained particle (stored last)
+        particle = particle_collection.get_particle(-1)
         log_density_estimate = (
             particle.get_score()
             - particle_collection.get_log_marginal_likelihood_estimate()
